@@ -42,8 +42,11 @@ def make(pid, ob, repo, path):
     if ob.get('concrete_vals'):
         rep['kani_harness'] = ob.get('harness')
         rep['kani_concrete_vals'] = ob['concrete_vals']
-        rep['failing_input_found'] = True
         rep['input_source'] = 'kani concrete playback (values of kani::any() in call order)'
+        nat_k = ob.get('native') or {}
+        rep['kani_native_playback'] = nat_k
+        # the counterexample counts as a failing input once it has failed natively against the real code
+        rep['failing_input_found'] = bool(nat_k.get('reproduced'))
     nat = native_search(pid, ob, repo)
     if nat:
         rep['native'] = nat
@@ -57,6 +60,14 @@ def make(pid, ob, repo, path):
 def rerun(path, repo):
     rep = json.load(open(path))
     print('replay of %s: obligation %s' % (rep['property'], rep['obligation']))
+    if rep.get('kani_native_playback', {}).get('test_source'):
+        from . import kani as kani_mod
+        crate = kani_mod.prepare(repo)
+        nk = rep['kani_native_playback']
+        r = kani_mod.native_playback(rep['kani_harness'], crate, test_source={'name': nk['test_name'], 'source': nk['test_source'], 'file': nk['test_file']})
+        print(r['output_tail'][-1500:])
+        print('native playback of the Kani counterexample on %s: %s' % (repo, 'violation reproduced' if r['reproduced'] else 'not reproduced'))
+        return 1 if r['reproduced'] else 0
     if rep.get('native', {}).get('found'):
         from . import native
         ok = native.rerun(rep, repo)
